@@ -190,7 +190,7 @@ class KeyValuePairNode(ContainerNode):
         self.__hash = hash((key, value))
 
     def to_obj(self):
-        return self.key, self.value
+        return self.key.to_obj(), self.value.to_obj()
 
     def print_parent_context(self, printer: Printer, for_child: TreeNode):
         if for_child.parent is not self:
